@@ -25,9 +25,9 @@ var c07Widths = []reflect.Type{model.TInt8, model.TUint16, model.TF32, model.TF6
 
 func c07Shapes(tier string) [][]int {
 	if tier == "thorough" {
-		return [][]int{{4}, {3, 1}, {1, 3}, {2, 3}, {2, 3, 2}, {2, 2, 3, 2}, {1, 1}, {1}, {3, 1, 2}}
+		return [][]int{{4}, {3, 1}, {1, 3}, {2, 3}, {2, 3, 2}, {2, 2, 3, 2}, {1, 1}, {1}, {3, 1, 2}, {}}
 	}
-	return [][]int{{4}, {2, 3}, {2, 3, 2}, {1, 1}, {1}}
+	return [][]int{{4}, {2, 3}, {2, 3, 2}, {1, 1}, {1}, {}}
 }
 
 var c07ArithModes = []string{"safe", "unsafe", "reuse", "incr", "reuseA", "reuseB", "incrB", "reuse-othertype", "incr-othertype"}
@@ -63,7 +63,7 @@ func c07Eq(sp ewSpec) func(a, b interface{}) bool {
 	}
 	if sp.Family == "unary" {
 		switch sp.Op {
-		case "Neg", "Square", "Cube", "Abs", "Sign", "Clamp", "Apply", "Inv":
+		case "Neg", "Square", "Cube", "Abs", "Sign", "Clamp", "Apply", "ApplyErr", "Inv":
 			return model.Equal
 		}
 		return func(a, b interface{}) bool { return model.Close(a, b, 2) }
